@@ -202,33 +202,42 @@ def scaling(job, mode, model, K):
         build.stub_thermo(pt, fs.mix)
         build.assume_validator(pt)
         cnt = flux.LoopCounter(pt, K)
-        ns = []
+        it = flux.IterateNames(pt)
 
         def run():
             cnt.reset()
+            it.reset()
             r1 = fs.pz.calculate_partial_fluxes(fs.T, build.comp(fs.x, "weight"), fs.prec, fs.Tp, fs.Pp,
                                                 build.perm(fs.P1), build.perm(fs.P2), model)
-            n1 = cnt.n
+            n1, y1 = cnt.n, list(it.names)
             cnt.reset()
+            it.reset()
             r2 = fs.pz.calculate_partial_fluxes(fs.T, build.comp(fs.x, "weight"), fs.prec, fs.Tp, fs.Pp,
                                                 build.perm(k * fs.P1), build.perm(k * fs.P2), model)
-            return r1, r2, n1, cnt.n
+            return r1, r2, n1, cnt.n, y1, list(it.names)
 
         got = 0
         for leaf in job.explore(run, dom):
             if leaf.kind != "returned":
                 continue
-            r1, r2, n1, n2 = leaf.value
+            r1, r2, n1, n2, ya, yb = leaf.value
             cs = dom + leaf.conds()
             got += 1
+            cgn = ["GAMMA1_%s" % model, "GAMMA2_%s" % model]
+            # chain: the (named) permeate iterates of the scaled run equal those of the original run, one by one
+            lemmas = []
+            for j in range(min(len(ya), len(yb))):
+                st = job.prove("%s/n%d_n%d/iterate%d_unchanged" % (tag, n1 - 1, n2 - 1, j), cs + lemmas, lift(yb[j]) != lift(ya[j]), R_, inputs,
+                               fallback=fb, timeout=20, congruence=cgn, near=1)
+                if st == "discharged":
+                    lemmas.append(lift(yb[j]) == lift(ya[j]))
             if n1 != n2:
                 # the scaled run left the loop at another iteration: must be infeasible
-                job.prove("%s/n%d_vs_n%d/same_exit" % (tag, n1 - 1, n2 - 1), cs, z3.BoolVal(True), R_, inputs, fallback=fb, timeout=20,
-                          congruence=["GAMMA1_%s" % model, "GAMMA2_%s" % model])
+                job.prove("%s/n%d_vs_n%d/same_exit" % (tag, n1 - 1, n2 - 1), cs + lemmas, z3.BoolVal(True), R_, inputs, fallback=fb, timeout=20)
                 continue
-            job.prove("%s/n%d/fluxes_scale" % (tag, n1 - 1), cs,
-                      z3.Or(lift(r2[0]) != k.t * lift(r1[0]), lift(r2[1]) != k.t * lift(r1[1])), R_, inputs, fallback=fb, timeout=20,
-                      congruence=["GAMMA1_%s" % model, "GAMMA2_%s" % model])
+            job.prove("%s/n%d/fluxes_scale" % (tag, n1 - 1), cs + lemmas,
+                      z3.Or(lift(r2[0]) != k.t * lift(r1[0]), lift(r2[1]) != k.t * lift(r1[1])), R_, inputs, fallback=fb, timeout=30,
+                      congruence=cgn, near=1)
         if not got:
             job.vacuity["failed"].append(tag)
 
